@@ -46,11 +46,16 @@ PROPS = {
     "C05": P([("spd", "fast", 5000, 0.7), ("spd", "trace", 1500, 0.3)],
              "seeded vector pairs vanishing on Dirichlet nodes on seeded grids (non-uniform angles, non-orthogonal mappings); "
              "A x := -(residual with zero rhs) computed by the real operators under the simulator",
-             "deterministic simulation of the residual operators; symmetry/positivity oracle with rounding bound; Cholesky of "
-             "reference line blocks",
+             "deterministic simulation of the residual operators and of smoother sweeps on unit right-hand sides; "
+             "symmetry/positivity oracle with rounding bound; Cholesky of reference and of recovered library line blocks",
              "<Ax,y> = <x,Ay> and <Ax,x> > 0 for the real give and take operators; the line blocks of the reference operator "
-             "are Cholesky-factorisable (the blocks the smoothers really factorise are private: covered indirectly by C06).",
-             quick_runs=6500, quick_budget_s=60, expect_probes=["line_blocks_checked"]),
+             "are Cholesky-factorisable; the blocks the four smoothers really factorise are observed through one sweep on "
+             "x = 0, rhs = e_q (column q of the inverse block): the inverse on the line's non-Dirichlet (fine-only) unknowns "
+             "must be symmetric and Cholesky-factorisable.",
+             quick_runs=6500, quick_budget_s=60,
+             expect_probes=["line_blocks_checked", "factorised_block_checked:smoother_give", "factorised_block_checked:smoother_take",
+                            "factorised_block_checked:exsmoother_give", "factorised_block_checked:exsmoother_take",
+                            "factorised_circle_block", "factorised_radial_block"]),
     "C06": P([("smoother", "fast", 5000, 0.6), ("smoother", "trace", 2500, 0.4)],
              "seeded smoothing-level grids (ntheta%4==0, both parities of the circle count via the splitting radius), "
              "sequences of 1..4 sweeps (the first sweep factorises lazily inside the parallel region), both strategies, "
